@@ -226,10 +226,15 @@ type RollbackSpec struct {
 	// pages beyond NewPageN to the database file (the transaction grows the file
 	// and later frees those pages again, so the commit cuts them off).
 	SpillBeyond uint32 `json:"spill_beyond,omitempty"`
-	NRec        string `json:"nrec,omitempty"`       // "" (synced count) | "nosync" (0xFFFFFFFF, single segment)
-	Outcome     string `json:"outcome"`              // commit | rollback | lockonly
-	Mode        string `json:"mode"`                 // delete | truncate | persist
-	WALHeader   bool   `json:"wal_header,omitempty"` // commit page 1 with file-format 2/2 (switch to WAL)
+	// UnwrittenNew > 0: that many of the freshly allocated pages just below
+	// NewPageN are never written (SQLite does not write pages it allocated and
+	// freed again in the same transaction; only the last page is written to
+	// extend the file). They exist as zero-filled holes.
+	UnwrittenNew uint32 `json:"unwritten_new,omitempty"`
+	NRec         string `json:"nrec,omitempty"`       // "" (synced count) | "nosync" (0xFFFFFFFF, single segment)
+	Outcome      string `json:"outcome"`              // commit | rollback | lockonly
+	Mode         string `json:"mode"`                 // delete | truncate | persist
+	WALHeader    bool   `json:"wal_header,omitempty"` // commit page 1 with file-format 2/2 (switch to WAL)
 }
 
 // Result of a transaction step sequence.
@@ -280,13 +285,21 @@ func (c *Conn) RunRollbackTx(spec RollbackSpec) (res TxResult) {
 			dirtySet[p] = true
 		}
 	}
+	holes := map[uint32]bool{}
 	for p := origPages + 1; p <= spec.NewPageN; p++ {
+		if spec.UnwrittenNew > 0 && p < spec.NewPageN && p+spec.UnwrittenNew >= spec.NewPageN {
+			holes[p] = true
+			continue
+		}
 		dirtySet[p] = true
 	}
 	lock := ref.LockPgno(d.PageSize)
 	delete(dirtySet, lock)
 	nm.Truncate(spec.NewPageN)
 	nm.PageN = spec.NewPageN
+	for p := range holes {
+		nm.Set(p, make([]byte, d.PageSize))
+	}
 	order := make([]uint32, 0, len(dirtySet))
 	for p := range dirtySet {
 		order = append(order, p)
